@@ -500,8 +500,10 @@ class Ctx:
               "coverage": cov, "assumptions": self.assumptions, "wall_s": round(time.time() - self.t0, 2),
               "violations": len(self.violations), "known_findings_hit": self.known_hits,
               "repo_hash": repo_hash()}
-        os.makedirs(os.path.join(VERIF, "evidence"), exist_ok=True)
-        p = os.path.join(VERIF, "evidence", self.pid + ".json")
+        # runs against scratch trees (seeded changes, mutation tests) must not overwrite the committed evidence
+        evdir = os.environ.get("VERIF_EVIDENCE_DIR") or os.path.join(VERIF, "evidence")
+        os.makedirs(evdir, exist_ok=True)
+        p = os.path.join(evdir, self.pid + ".json")
         with open(p + ".tmp", "w") as f:
             json.dump(ev, f, indent=1, default=_jd)
         os.rename(p + ".tmp", p)
